@@ -1390,8 +1390,8 @@ Qed.
 
 Theorem retry_delay_set : forall cfg s r s' ns o,
   end_unsol cfg s false r = (s', ns, o) -> r <> UrConfirmed ->
-  s_unsol s' = UReady (Some (s_now s + o_retry_delay_ms cfg)%Z) /\ s_control s' = CIdle /\ ns = false /\
-  o = [ODb DbReset].
+  s_unsol s' = UReady (Some (s_now s + o_retry_delay_ms cfg)%Z) /\ s_control s' = CIdle /\
+  ns = (o_retry_delay_ms cfg <=? 0)%Z /\ o = [ODb DbReset].
 Proof.
   intros cfg s r s' ns o H Hr. apply end_unsol_spec in H. destruct H as (Hc & _ & Hu & Ho & Hn).
   destruct r; [contradiction Hr; reflexivity| |]; repeat split; assumption.
